@@ -1,5 +1,6 @@
 import KDVerif.Driver.J
 import KDVerif.Model.IndexMaps
+import KDVerif.Model.C02Spec
 open Lean KDVerif.J
 
 namespace KDVerif.IndexMaps.Driver
@@ -44,6 +45,14 @@ def optNatJson : Option Nat → Json
   | none => Json.null
   | some n => ofNat n
 
+/-- `getall_as_list/numpy/tensor` with container kinds (`Model/C02Spec.getallAsK`): the elements if the container that comes back
+    is of the kind the converter promises, else what the harness reports for a wrong container -/
+def convJson (c : Conv) (d : DS) : Json :=
+  match getallAsK c d with
+  | .ok r => if r.1 == c.target then samplesJson r.2 else Json.str s!"wrong-type:{kindStr r.1}"
+  | .error (.inner e) => Json.str (errStr e)
+  | .error .notImplemented => Json.str "NotImplementedError"
+
 /-- op "im.run": construction outcome, len, every requested per-sample access, the bulk accessor, the three converters and the
     introspection answers of one stack -/
 def run (j : Json) : Except String Json := do
@@ -60,9 +69,11 @@ def run (j : Json) : Except String Json := do
       ("items", Json.arr (ks.map (fun k => exc sampleJson (resolve d k))).toArray),
       ("getall", exc (fun (r : Kind × List Sample) => Json.arr #[Json.str (kindStr r.1), samplesJson r.2]) (getall d)),
       ("hasattr", Json.bool (hasGetall d)),
-      ("as_list", exc samplesJson (getallAs .asList d)),
-      ("as_numpy", exc samplesJson (getallAs .asNumpy d)),
-      ("as_tensor", exc samplesJson (getallAs .asTensor d)),
+      ("as_list", convJson .asList d),
+      ("as_numpy", convJson .asNumpy d),
+      ("as_tensor", convJson .asTensor d),
+      ("getdim", exc ofNat (getdim 0 d)),
+      ("wrapper_types", ofNatList (allWrapperTypes d)),
       ("root", optNatJson (root d)),
       ("wrappers", Json.arr ((allWrappers d).map (fun p => ofNatList [p.1, p.2])).toArray),
       ("of_type", Json.arr (tys.map (fun t => ofNatList (wrappersOfType t d))).toArray),
